@@ -411,6 +411,30 @@ def initMgr (ip : InitParams) (store : Storage) : Except BuildErr Mgr × Storage
   | .error e => (.error e, st3)
   | .ok rl => (.ok { cfg := cfg, ruleList := rl }, st3)
 
+/-- the storage writes loadRules issues, in order: first the restored rules, then the stale keys -/
+def repairWrites (store : Storage) : List Write :=
+  let (_, toSave, toDelete) := loadLoop store.rules [] [] []
+  toSave.map Write.saveRule ++
+    (toDelete.filter (fun k => !(toSave.map (·.key)).contains k)).map Write.deleteRule
+
+/-- Initialize with a storage failure at its (k+1)-th write (`none`: no failure).  The writes of start-up are the
+    repairs of loadRules and, when no rule was loaded, the save of the default rule; a failing write makes
+    Initialize return an error (`none`) with the earlier writes done.  No `wrote=` input: the order is that of two
+    slices, not of a map. -/
+def initMgrF (ip : InitParams) (store : Storage) (fail : Option Nat) : Option Mgr × Storage :=
+  let plain : Option Mgr × Storage :=
+    match initMgr ip store with
+    | (.ok m, st) => (some m, st)
+    | (.error _, st) => (none, st)
+  match fail with
+  | none => plain
+  | some k =>
+    let ws := repairWrites store
+    if k < ws.length then (none, (ws.take k).foldl Storage.apply store)
+    else if (loadLoop store.rules [] [] []).1.isEmpty && k == ws.length then
+      (none, ws.foldl Storage.apply store)            -- the save of the default rule fails
+    else plain
+
 /-! ## the public update kinds -/
 
 inductive BatchOp where
